@@ -193,3 +193,44 @@ def c13_dir_rename_moves_symlink(rp):
 def c11_clock_race(rp):                     # fixed 97cb05d
     # class 'clock_race' is only attributed when the offending send_packet call saw two differing clock readings
     return rp.get('kind') == 'trace' and rp.get('class') == 'clock_race'
+
+
+# ---- C10 (replay objects written by harness/props/c10.py) ------------------------------------------------
+
+def c10_unbounded_packet_length(rp):        # known: no cap on the packet_length field
+    return rp.get('kind') == 'unbounded_packet_length'
+
+
+def c10_copy_same_file(rp):                 # fixed COMMIT_C10_1
+    return rp.get('kind') == 'copy_spin' and rp.get('same_file') is True
+
+
+def c10_der_exceptions(rp):                 # fixed COMMIT_C10_3a
+    return rp.get('kind') == 'parser' and rp.get('stage') == 'fuzz_imports' and \
+        rp.get('exc') in ('asn1.ASN1EncodeError', 'builtins.UnicodeDecodeError')
+
+
+def c10_pem_header_regex(rp):               # fixed COMMIT_C10_3b
+    return rp.get('kind') == 'parser' and rp.get('stage') == 'fuzz_imports' and rp.get('exc') == 're.error'
+
+
+def c10_x509_nameerror(rp):                 # fixed COMMIT_C10_3c
+    return rp.get('kind') == 'parser' and rp.get('stage') == 'fuzz_imports' and rp.get('exc') == 'builtins.NameError'
+
+
+def c10_private_import_valueerror(rp):      # fixed COMMIT_C10_3d
+    return rp.get('kind') == 'parser' and rp.get('stage') == 'fuzz_imports' and \
+        rp.get('exc') in ('builtins.ValueError', 'builtins.OverflowError')
+
+
+def c10_sftp_decode_errors(rp):             # fixed COMMIT_C10_4
+    return rp.get('kind') == 'parser' and rp.get('stage') in ('fuzz_sftp_client', 'fuzz_sftp_server') and \
+        rp.get('exc') in ('packet.PacketDecodeError', 'PacketDecodeError', 'builtins.IndexError')
+
+
+def c06_success_without_request(rp):        # fixed 5ecc05e
+    return rp.get('kind') == 'success_without_request'
+
+
+def c06_kexinit_before_peer_newkeys(rp):    # fixed 9276b6d
+    return rp.get('kind') == 'table' and rp.get('phase') == 'K2' and rp.get('type') == 20 and not rp.get('strict')
